@@ -2,7 +2,10 @@
 
 package lisp
 
-import "reflect"
+import (
+	"math"
+	"reflect"
+)
 
 // True interprets v as a boolean and returns the result.
 //
@@ -146,14 +149,21 @@ func SymbolName(v *LVal) (string, bool) {
 }
 
 // GoInt converts the numeric value that v represents to and int and returns it
-// with the value true.  If v does not represent a number GoInt returns a
-// false second argument
+// with the value true.  If v does not represent a number, or is a float that
+// no int can represent (NaN, or outside the int range), GoInt returns a false
+// second argument
 func GoInt(v *LVal) (int, bool) {
 	if !v.IsNumeric() {
 		return 0, false
 	}
 	if v.Type == LFloat {
-		return int(v.Float), true
+		// A float outside the int range does not represent an int; Go's
+		// result for converting it is implementation-defined.
+		f := v.Float
+		if f != f || f >= -float64(math.MinInt) || f < float64(math.MinInt) {
+			return 0, false
+		}
+		return int(f), true
 	}
 	return v.Int, true
 }
